@@ -379,3 +379,112 @@ Proof.
   - lia.
   - inversion Hpos as [|? ? Hc _]; subst. cbn [fst] in Hc. apply andb_true_iff in Hf as [Hf _]. lia.
 Qed.
+
+(* ---- complete runs: the generous reading of the limit -------------------------------------------------------- *)
+(* a token in general: all of the data (only when the reader has ended; the data then holds no complete group), or
+   as in sf_tok_end *)
+Lemma sf_tok_gen d eof adv tok : split_func d eof = SplitTok adv tok ->
+  forall a,
+    (adv = length d /\ eof = true /\ exists st', quiet d (true, false, a) st') \/
+    (exists k b r' a', skipn k d = b :: r' /\ is_nl b = true /\ 0 < k /\
+       quiet (firstn k d) (true, false, a) (true, true, a') /\ a' && (b =? LF)%N = false /\
+       (adv = S k \/ (adv = S (S k) /\ b = CR /\ exists r'', r' = LF :: r''))).
+Proof.
+  intros H a. assert (Hne : d <> []) by (intros ->; discriminate).
+  rewrite (split_func_ne d eof Hne) in H.
+  set (l := length d) in *.
+  destruct (split_loop (S l) d 0 0) as [[advance start]|] eqn:El; [|discriminate].
+  destruct (split_loop_quiet (S l) d 0 0 advance start false a ltac:(unfold l; lia) ltac:(discriminate) El) as (k & Hk & Hle & Hall & Hm).
+  rewrite Nat.add_0_r in Hk. subst advance. fold l in Hle, Hm, Hall.
+  destruct ((k =? l) && negb eof) eqn:E; [discriminate|].
+  injection H as Hadv _. unfold final_advance in Hadv. fold l in Hadv. cbv zeta in Hadv.
+  destruct (k <? l) eqn:Elt.
+  - right. apply Nat.ltb_lt in Elt. destruct (Hm Elt) as (Hk0 & b & r' & a' & Hs & Hb & Hq & Ha).
+    exists k, b, r', a'. repeat split; try assumption.
+    destruct (nth_skipn_hd _ _ _ _ Hs) as [Hn0 Hn1].
+    replace (S k - 1) with k in Hadv by lia. rewrite Hn0, Hn1 in Hadv.
+    destruct ((S k <? l) && (b =? CR)%N && (hd 0%N r' =? LF)%N) eqn:E2.
+    + right. apply andb_true_iff in E2 as [E2 E4]. apply andb_true_iff in E2 as [E2 E3].
+      apply Nat.ltb_lt in E2. apply N.eqb_eq in E3, E4.
+      split; [lia|]. split; [exact E3|]. destruct r' as [|c r''].
+      * exfalso. pose proof (skipn_length k d) as Hl. rewrite Hs in Hl. cbn [length] in Hl. fold l in Hl. lia.
+      * cbn [hd] in E4. subst c. eexists; reflexivity.
+    + left. lia.
+  - left. apply Nat.ltb_ge in Elt. assert (Hkl : k = l) by lia.
+    split; [lia|]. split; [|apply Hall; exact Hkl].
+    rewrite Hkl, Nat.eqb_refl in E. cbn [andb] in E. destruct eof; [reflexivity|discriminate].
+Qed.
+
+Lemma hi_of_lb c b r : (c <= hi_of c b r)%N.
+Proof. unfold hi_of. destruct (_ && _); lia. Qed.
+
+(* [may_complete] reads only the generous needs: from the late end of one group to the early end of the next *)
+Fixpoint mc_ends (L : N) (ends : list (N * N)) (len hi : N) : bool :=
+  match ends with
+  | [] => (len - hi + 1 <=? L)%N
+  | (c, h) :: rest => (c - hi <=? L)%N && mc_ends L rest len h
+  end.
+
+Lemma mc_needs L E : forall len lo hi,
+  forallb (fun x : N * N * N => (snd x <=? L)%N) (group_needs E len lo hi) = mc_ends L E len hi.
+Proof.
+  induction E as [|[c h] E IH]; intros len lo hi; cbn [group_needs forallb mc_ends fst snd].
+  - apply Bool.andb_true_r.
+  - now rewrite IH.
+Qed.
+
+Lemma may_complete_ends L s : may_complete L s = mc_ends L (ge' s 0 (true, false, false)) (N.of_nat (length s)) 0.
+Proof. unfold may_complete, stream_needs. apply mc_needs. Qed.
+
+(* [cpath B R]: tokens, each cut by splitFunc from at most B buffered bytes (fewer than B once the reader has ended:
+   the end was delivered by a Read call, which needs room), consume all of R *)
+Inductive cpath (B : N) : bytes -> Prop :=
+| cp_nil : cpath B []
+| cp_tok R n0 eof adv tok :
+    n0 <= length R -> (N.of_nat n0 <= B)%N -> (eof = true -> n0 = length R /\ (N.of_nat n0 < B)%N) ->
+    split_func (firstn n0 R) eof = SplitTok adv tok -> cpath B (skipn adv R) -> cpath B R.
+
+Lemma cpath_mc B : (0 < B)%N -> forall R, cpath B R -> forall o hi a,
+  (o <= hi)%N -> mc_ends B (ge' R o (true, false, a)) (o + N.of_nat (length R)) hi = true.
+Proof.
+  intros HB. induction 1 as [|R n0 eof adv tok Hn0 HnB Heof Hsf Hpath IH]; intros o hi a Hhi.
+  - cbn. lia.
+  - destruct (sf_tok_gen _ _ _ _ Hsf a) as [(Hadv & He & st' & Hq)|(k & b & r' & a' & Hs & Hb & Hk0 & Hq & Ha & Hadv)].
+    + destruct (Heof He) as [Hn HnB']. rewrite firstn_all2 in Hq by lia.
+      rewrite (quiet_whole R _ _ Hq o). cbn [mc_ends]. lia.
+    + set (d := firstn n0 R) in *. set (x := skipn n0 R).
+      assert (Hld : length d = n0) by (apply firstn_length_le; exact Hn0).
+      assert (HR : R = firstn k d ++ b :: (r' ++ x)).
+      { rewrite <- (firstn_skipn n0 R) at 1. fold d x. rewrite <- (firstn_skipn k d) at 1. rewrite Hs, <- app_assoc. reflexivity. }
+      assert (Hkn : k < n0).
+      { pose proof (skipn_length k d) as Hl. rewrite Hs in Hl. cbn [length] in Hl. lia. }
+      assert (Hkd : length (firstn k d) = k) by (apply firstn_length_le; lia).
+      pose proof (Hq (b :: r' ++ x) o) as Hge. rewrite <- HR, Hkd in Hge.
+      rewrite ge'_cons, Ha, Hb in Hge. cbv iota in Hge.
+      rewrite Hge. cbn [mc_ends]. apply andb_true_iff. split; [lia|].
+      assert (HlenR : length R = k + 1 + length (r' ++ x)).
+      { rewrite HR at 1. rewrite app_length, Hkd. cbn [length]. lia. }
+      destruct Hadv as [-> | (-> & -> & r'' & ->)].
+      * assert (Hsk : skipn (S k) R = r' ++ x).
+        { rewrite HR. replace (S k) with (length (firstn k d) + 1) by lia. now rewrite skipn_app_exact. }
+        rewrite Hsk in IH.
+        specialize (IH (o + N.of_nat k + 1)%N (hi_of (o + N.of_nat k + 1) b (r' ++ x)) (b =? CR)%N (hi_of_lb _ _ _)).
+        replace (o + N.of_nat k + 1 + N.of_nat (length (r' ++ x)))%N with (o + N.of_nat (length R))%N in IH by lia.
+        exact IH.
+      * assert (Hsk : skipn (S (S k)) R = r'' ++ x).
+        { rewrite HR. replace (S (S k)) with (length (firstn k d) + 2) by lia. now rewrite skipn_app_exact. }
+        rewrite Hsk in IH.
+        change ((LF :: r'') ++ x) with (LF :: r'' ++ x) in *.
+        rewrite ge'_cons. change ((CR =? CR)%N && (LF =? LF)%N) with true. cbv iota.
+        assert (Hhi' : hi_of (o + N.of_nat k + 1) CR (LF :: r'' ++ x) = (o + N.of_nat k + 1 + 1)%N) by reflexivity.
+        rewrite Hhi'.
+        specialize (IH (o + N.of_nat k + 1 + 1)%N (o + N.of_nat k + 1 + 1)%N false (N.le_refl _)).
+        cbn [length] in HlenR.
+        replace (o + N.of_nat k + 1 + 1 + N.of_nat (length (r'' ++ x)))%N with (o + N.of_nat (length R))%N in IH by lia.
+        exact IH.
+Qed.
+
+Lemma cpath_may_complete B s : (0 < B)%N -> cpath B s -> may_complete B s = true.
+Proof.
+  intros HB Hp. rewrite may_complete_ends. exact (cpath_mc B HB s Hp 0%N 0%N false (N.le_refl _)).
+Qed.
